@@ -110,3 +110,49 @@ func harnessC30Witness() {
 		verif_assert(false, "witness")
 	}
 }
+
+// a poll (what the poll timer runs) racing a wake request, every interleaving
+// at lock/atomic granularity: once the wake has completed the agent stays awake,
+// nothing disconnects afterwards, and AWAKE is what is persisted
+func harnessC30PollWakeRace() {
+	cfg := config.SleepConfig{Enabled: true, PollInterval: time.Hour, PollDuration: time.Second, PersistState: true, MaxQueuedMessages: 4}
+	m := NewManager(cfg, "/vfs/data", nil)
+	verif_fs_mkdir("/vfs/data")
+	wakeDone := false
+	pollsAfterWake, endsAfterWake := 0, 0
+	m.SetCallbacks(Callbacks{
+		OnPoll: func() error {
+			if wakeDone {
+				pollsAfterWake++
+			}
+			return nil
+		},
+		OnPollEnd: func() error {
+			if wakeDone {
+				endsAfterWake++
+			}
+			return nil
+		},
+	})
+	verif_assert(m.Sleep() == nil, "C30/setup")
+	go m.Poll()
+	err := m.Wake()
+	wakeDone = true
+	verif_assert(err == nil, "C30/wake-refused-while-asleep")
+	verif_drain()
+	// the poll duration of a poll that got in first elapses, stale poll timers fire
+	for i := 0; i < 4 && verif_timers() > 0; i++ {
+		verif_fire_timer(0)
+		verif_drain()
+	}
+	verif_reach("C30/poll-wake-race")
+	// (a poll that had already turned POLLING may still run its connect callback after the
+	// wake: connecting is what an awake agent does anyway; disconnecting is the harmful act)
+	_ = pollsAfterWake
+	verif_assert(endsAfterWake == 0, "C30/stale-poll-acts-after-a-completed-wake")
+	verif_assert(m.GetState() == StateAwake, "C30/agent-asleep-again-after-a-completed-wake")
+	m2 := NewManager(cfg, "/vfs/data", nil)
+	if err := m2.LoadState(); err == nil {
+		verif_assert(m2.GetState() == StateAwake, "C30/persisted-state-differs-from-state")
+	}
+}
